@@ -134,7 +134,9 @@ def norm1(b):
     if isinstance(b, DT_Raise.Raise):
         return ['raise', b.__name__, b.expr is not None, norm(b.section)]
     if isinstance(b, DT_Try.Try):
-        return ['try']
+        return ['try', norm(b.section), [[n, norm(h)] for n, h in (getattr(b, 'handlers', None) or [])],
+                norm(b.elseBlock) if b.elseBlock is not None else None,
+                norm(b.finallyBlock) if b.finallyBlock is not None else None]
     if isinstance(b, TT.Tree):
         return ['tree']
     return ['?', repr(b)[:60]]
@@ -177,7 +179,17 @@ def norm_model(tree):
         elif k == 'raise':
             out.append(['raise', n[1], n[2], norm_model(n[3])])
         elif k == 'try':
-            out.append(['try'])
+            secs = n[1]
+            hs, els, fin = [], None, None
+            for tname, args, body in secs[1:]:
+                if tname == 'except':
+                    names = args.split() or ['']
+                    hs += [[nm, norm_model(body)] for nm in names]
+                elif tname == 'else':
+                    els = norm_model(body)
+                elif tname == 'finally':
+                    fin = norm_model(body)
+            out.append(['try', norm_model(secs[0][2]), hs, els, fin])
         elif k == 'tree':
             out.append(['tree'])
         else:
